@@ -531,6 +531,13 @@ def observe_run(C, reads1, reads2, workdir):
                   qt1=nn(bp["quality_trimmed_read1"]), qt2=nn(bp["quality_trimmed_read2"]),
                   rc=nn(rc["reverse_complemented"]),
                   text_ok=text_report_ok(res.report, j), minimal_ok=True)
+    if C.get("_minimal"):
+        # the same command once more with --report=minimal (one core): its figures against its own JSON report
+        mC = {k: v for k, v in C.items() if k not in ("cores", "buffer_size", "sched_seed", "sched_weights", "perm_seed")}
+        mres = run_cli(["--report=minimal"] + build_argv(mC), inputs, workdir + "-minimal")
+        report["minimal_ok"] = bool(mres.exit == 0 and mres.exception is None and mres.json is not None
+                                    and minimal_report_ok(mres.report, mres.json, paired)
+                                    and mres.json["read_counts"] == rc)
     ev.update(cfg=cfg, reads=reads, report=report)
     ev["stats1"] = adapter_stats(j.get("adapters_read1") or [], sampler.desc1, sampler)
     ev["stats2"] = adapter_stats(j.get("adapters_read2") or [], sampler.desc2, sampler) if paired else []
@@ -568,6 +575,28 @@ def adapter_stats(jlist, descs, sampler):
     return out
 
 
+def minimal_report_ok(text, j, paired):
+    """--report=minimal: one header line and one line of figures; every column this harness knows must repeat
+    the JSON figure (columns are found by their header name, unknown columns are not interpreted)."""
+    lines = [ln for ln in (text or "").split("\n") if "\t" in ln]
+    if len(lines) < 2 or not lines[0].startswith("status"):
+        return False
+    row = dict(zip(lines[0].split("\t"), lines[1].split("\t")))
+    rc, bp = j["read_counts"], j["basepair_counts"]
+    z = lambda v: 0 if v is None else v
+    want = {"in_reads": rc["input"], "in_bp": bp["input"], "too_short": z(rc["filtered"].get("too_short")),
+            "too_long": z(rc["filtered"].get("too_long")), "too_many_n": z(rc["filtered"].get("too_many_n")),
+            "out_reads": rc["output"], "w/adapters": z(rc["read1_with_adapter"]),
+            "qualtrim_bp": z(bp["quality_trimmed_read1"]), "out_bp": bp["output_read1"]}
+    if paired:
+        want.update({"w/adapters2": z(rc["read2_with_adapter"]), "qualtrim2_bp": z(bp["quality_trimmed_read2"]),
+                     "out2_bp": z(bp["output_read2"])})
+    try:
+        return all(k in row and int(row[k]) == v for k, v in want.items())
+    except ValueError:
+        return False
+
+
 def text_report_ok(text, j):
     """The 'Read fate breakdown' and totals of the text report repeat the JSON figures."""
     if not text or "No reads processed" in text:
@@ -583,18 +612,23 @@ def text_report_ok(text, j):
             "too_many_expected_errors": "with too many exp. errors", "too_high_average_error_rate": "with too high error rate",
             "casava_filtered": "failed CASAVA filter",
             "discard_trimmed": "discarded as trimmed", "discard_untrimmed": "discarded as untrimmed"}
+    # every filter category the JSON report counts appears in the text report with the same figure (categories
+    # this harness has no label for are taken from the JSON figure), and the text figures add up:
+    # processed = written + sum of the categories.  Lines the harness does not know (additional summary lines
+    # a later version may print) are not interpreted.
     total = 0
     for k, v in rc["filtered"].items():
         if v is None:
             continue
-        total += v
         if k in desc:
             m = re.search(r"(?:Reads|Pairs) " + re.escape(desc[k]) + r":\s+([\d,]+)", text)
             ok &= bool(m) and num(m.group(1)) == v
-    # every line of the breakdown must be accounted for: the listed numbers add up to the filtered total
-    fate = text.split("== Read fate breakdown ==", 1)
-    listed = sum(num(x) for x in re.findall(r"^(?:Reads|Pairs) (?!written)[^:\n]*:\s+([\d,]+) \(", fate[1], flags=re.M)) if len(fate) > 1 else 0
-    ok &= listed == total
+            total += num(m.group(1)) if m else 0
+        else:
+            total += v
+    mi = re.search(r"Total (?:reads|read pairs) processed:\s+([\d,]+)", text)
+    mo = re.search(r"(?:Reads|Pairs) written \(passing filters\):\s+([\d,]+)", text)
+    ok &= bool(mi) and bool(mo) and num(mi.group(1)) == num(mo.group(1)) + total
     return bool(ok)
 
 
